@@ -57,7 +57,8 @@ class VKernel:
         self.procs = {}
         for p in procs:
             self.procs[p["pid"]] = {"kind": p["kind"], "exit": unq(p["exit"]), "status": status_word(p["status"]),
-                                    "eintr": eintr_map(p["eintr"]), "ncalls": 0, "reaped": False, "infs": True}
+                                    "eintr": eintr_map(p["eintr"]), "ncalls": 0, "reaped": False, "infs": True,
+                                    "reused": False}
         self.sleeps = []
         self.kills = []
         self.ops = 0
@@ -131,14 +132,36 @@ class VKernel:
             p["infs"] = False
         return (pid, p["status"])
 
+    # ---- the wrapped subprocess.Popen object's own reaping (poll / wait / communicate / __exit__)
+    def sub_waitpid(self, pid, block):
+        p = self.procs[pid]
+        if p["reaped"] or p["kind"] != "child":
+            raise ChildProcessError(10, "No child processes")
+        if p["exit"] is not None and p["exit"] <= self.clock:
+            return self._reap(pid, p)[1]
+        if not block:
+            return None
+        if p["exit"] is None:
+            raise Hang()
+        self.clock = p["exit"]
+        self.sync()
+        return self._reap(pid, p)[1]
+
+    def reuse(self, pid):
+        """the kernel hands the PID of a reaped process to a stranger (another start time)"""
+        p = self.procs[pid]
+        if p["reaped"] and not p["reused"]:
+            p["reused"] = True
+            self.fp.add(pid, comm=b"stranger", starttime=424242)
+
     def kill(self, pid, sig):
         """os.kill: succeeds (and changes nothing: the exit schedule is fixed) while the PID is in the
         process table -- running or a zombie waiting to be reaped -- else ESRCH"""
         self.sync()
         p = self.procs.get(pid)
-        if p is None or not p["infs"]:
+        if p is None or not (p["infs"] or p["reused"]):
             raise ProcessLookupError(3, "No such process")
-        self.kills.append((pid, int(sig)))
+        self.kills.append((pid, int(sig), p["reused"]))
 
     def pid_exists(self, pid):
         self.ops += 1
@@ -150,8 +173,63 @@ class VKernel:
         if p["kind"] == "never":
             return False
         if p["kind"] == "child":
-            return not p["reaped"]
+            return (not p["reaped"]) or p["reused"]
         return not (p["exit"] is not None and p["exit"] <= self.clock)
+
+
+class FakePopen:
+    """subprocess.Popen's attribute protocol over the virtual kernel (what psutil.Popen delegates to)"""
+
+    def __init__(self, vk, pid):
+        self._vk = vk
+        self.pid = pid
+        self.args = ["virtual-child"]
+        self.returncode = None
+        self.stdin = self.stdout = self.stderr = None
+
+    def _set(self, word):
+        self.returncode = (word >> 8) & 0xff if word & 0x7f == 0 else -(word & 0x7f)
+
+    def _try(self, block):
+        if self.returncode is None:
+            try:
+                w = self._vk.sub_waitpid(self.pid, block)
+            except ChildProcessError:
+                self.returncode = 0      # what subprocess does when somebody else reaped its child
+                return self.returncode
+            if w is not None:
+                self._set(w)
+        return self.returncode
+
+    def poll(self):
+        return self._try(False)
+
+    def wait(self, timeout=None):
+        return self._try(True)
+
+    def communicate(self, input=None, timeout=None):
+        self._try(True)
+        return (None, None)
+
+    def __enter__(self):
+        return self
+
+    def __exit__(self, *a):
+        self._try(True)
+
+
+class SubShim:
+    """stands for the `subprocess` module inside psutil/__init__.py: Popen is the fake, the rest is real"""
+
+    def __init__(self, vk):
+        self._vk = vk
+
+    def Popen(self, pid, **kw):
+        return FakePopen(self._vk, pid)
+
+    def __getattr__(self, name):
+        import subprocess
+        return getattr(subprocess, name)
 
 
 class Patched:
@@ -165,7 +243,8 @@ class Patched:
         from psutil import _psposix
         vk = self.vk
         self.saved = (os.waitpid, time.monotonic, time.time, time.sleep, psutil._timer, _psposix.wait_pid.__defaults__,
-                      _psposix.pid_exists, os.kill)
+                      _psposix.pid_exists, os.kill, psutil.subprocess)
+        psutil.subprocess = SubShim(vk)
         d = list(_psposix.wait_pid.__defaults__)
         # (timeout, proc_name, _waitpid, _timer, _min, _sleep, _pid_exists)
         d[2], d[3], d[5], d[6] = vk.waitpid, vk.timer, vk.sleep, vk.pid_exists
@@ -183,7 +262,7 @@ class Patched:
         import psutil
         from psutil import _psposix
         (os.waitpid, time.monotonic, time.time, time.sleep, psutil._timer, _psposix.wait_pid.__defaults__,
-         _psposix.pid_exists, os.kill) = self.saved
+         _psposix.pid_exists, os.kill, psutil.subprocess) = self.saved
         return False
 
 
@@ -298,6 +377,115 @@ def run_wait(case, env, mode):
     return out
 
 
+def _int(x):
+    return None if x is None else int(x)
+
+
+def run_popen(case, env, mode):
+    """a history of one psutil.Popen object (wrapping the fake subprocess.Popen)"""
+    import psutil
+    p = case["proc"]
+    fp = _fake(env, "po")
+    pid = p["pid"]
+    vk = VKernel(mode, unq(case["start"]), fp, [p])
+    fp.add(pid, starttime=777)
+    out = []
+    with Patched(vk):
+        obj = psutil.Popen(pid)
+        if not isinstance(obj._Popen__subproc, FakePopen):
+            return T("Skip", "subprocess shim not in effect")
+        for op in case["ops"]:
+            k = op[0]
+            if k == "advance":
+                vk.advance(unq(op[1]))
+            elif k == "call":
+                other_call(obj, op[1])
+            elif k == "reuse":
+                vk.reuse(pid)
+            elif k == "wait":
+                n0 = len(vk.sleeps)
+                tm = _tm_arg(op[1], mode)
+                r = _res(lambda: obj.wait(tm))
+                out.append([r, q(vk.clock), [q(x) for x in vk.sleeps[n0:]], vk.procs[pid]["ncalls"]])
+            else:
+                try:
+                    if k == "poll":
+                        obj.poll()
+                    elif k == "communicate":
+                        obj.communicate()
+                    elif k == "exit":
+                        obj.__enter__()
+                        obj.__exit__(None, None, None)
+                    else:
+                        raise ValueError(k)
+                    out.append([_int(obj.returncode), q(vk.clock)])
+                except Hang:
+                    out.append(T("Hang"))
+    return out
+
+
+def spec_popen(case, obs, tol=0):
+    """oracle for a Popen history: before anybody collected the status, wait() obeys spec_wait; once it has been
+    collected (by poll/communicate/__exit__ or by wait itself) every wait returns it at once -- 0 included"""
+    p = case["proc"]
+    code = spec_code(p["status"])
+    ex = unq(p["exit"])
+    t = unq(case["start"])
+    fails = []
+    collected = None
+    ncalls = 0
+    j = 0
+    for op in case["ops"]:
+        k = op[0]
+        if k == "advance":
+            t += unq(op[1])
+            continue
+        if k in ("call", "reuse"):
+            continue
+        if j >= len(obs):
+            fails.append("missing observation")
+            break
+        o = obs[j]
+        j += 1
+        if k == "wait":
+            res, ret, sleeps, nc = o
+            ret = unq(ret)
+            sleeps = [unq(x) for x in sleeps]
+            tm = unq(op[1])
+            if collected is not None:
+                if res != T("Int", collected) or abs(ret - t) > tol or sleeps or nc != ncalls:
+                    fails.append("op %d: status %d was already collected but wait(%s) gave %r (slept %d, %s s, waitpid calls %d->%d)"
+                                 % (j - 1, collected, tm, res, len(sleeps), ret - t, ncalls, nc))
+            else:
+                fails += ["op %d: %s" % (j - 1, f) for f in spec_wait(p, t, tm, res, ret, sleeps, True, tol)]
+                if isinstance(res, dict) and res.get("t") == "Int":
+                    collected = res["a"][0]
+            t, ncalls = ret, nc
+        else:
+            if isinstance(o, dict):
+                if not (k != "poll" and ex is None and collected is None):
+                    fails.append("op %d: %s never returned" % (j - 1, k))
+                break
+            rc, ret = o
+            ret = unq(ret)
+            if collected is not None:
+                if rc != collected or abs(ret - t) > tol:
+                    fails.append("op %d: %s gave returncode %r after %d had been collected" % (j - 1, k, rc, collected))
+            elif ex is not None and ex <= t + tol:
+                if rc != code or abs(ret - t) > tol:
+                    fails.append("op %d: %s gave %r at %s, expected %d at once" % (j - 1, k, rc, ret, code))
+                collected = code
+            elif k == "poll":
+                if rc is not None or abs(ret - t) > tol:
+                    fails.append("op %d: poll() of a running child gave %r" % (j - 1, rc))
+            else:
+                if rc != code or ex is None or abs(ret - ex) > tol:
+                    fails.append("op %d: %s gave %r at %s, expected %d at %s" % (j - 1, k, rc, ret, code, ex))
+                collected = code
+            t = ret
+    return fails
+
+
 # ---- wait_procs: steering the iteration order of the set `alive`
 _POOL = {}
 
@@ -345,9 +533,11 @@ def run_procs(case, env, mode):
     kp = [dict(p, pid=pids[i]) for i, p in enumerate(ps)]
     vk = VKernel(mode, unq(case["start"]), fp, kp)
     objs = []
-    for i, p in enumerate(ps):
-        fp.add(pids[i], starttime=777)
-        objs.append(psutil.Process(pids[i]))
+    popen = {int(k): v for k, v in case.get("popen", {}).items()}
+    with Patched(vk):
+        for i, p in enumerate(ps):
+            fp.add(pids[i], starttime=777)
+            objs.append(psutil.Popen(pids[i]) if i in popen else psutil.Process(pids[i]))
     # the steering assumption, checked on the concrete objects: every sub-set iterates in priority order
     full = set(objs)
     for r in range(0, n + 1):
@@ -364,13 +554,20 @@ def run_procs(case, env, mode):
     waits, cbs = [], []
     orig_wait = psutil.Process.wait
 
+    orig_pwait = psutil.Popen.wait
+
     def rec_wait(self, timeout=None):
-        waits.append([idx_of.get(self.pid, -1), snapq(timeout) if timeout is not None else None])
+        if not isinstance(self, psutil.Popen):      # a Popen is logged once, at its own wait()
+            waits.append([idx_of.get(self.pid, -1), snapq(timeout) if timeout is not None else None])
         return orig_wait(self, timeout)
+
+    def rec_pwait(self, timeout=None):
+        waits.append([idx_of.get(self.pid, -1), snapq(timeout) if timeout is not None else None])
+        return orig_pwait(self, timeout)
 
     def callback(proc):
         cbs.append(idx_of.get(proc.pid, -1))
-        if not hasattr(proc, "returncode"):
+        if "returncode" not in vars(proc):
             cbs.append(-2)
 
     cb = {"none": None, "ok": callback, "bad": 1}[case["cb"]]
@@ -379,6 +576,31 @@ def run_procs(case, env, mode):
     # objects that were already waited for (their process had ended before), then used through other calls
     pre_bad = []
     with Patched(vk):
+        # psutil.Popen objects whose child had ended: the status is collected first through the wrapped subprocess
+        # object (or through psutil's wait), the PID may then be recycled
+        for i, how in sorted(popen.items()):
+            want = spec_code(ps[i]["status"])
+            try:
+                if how["reap"] == "poll":
+                    objs[i].poll()
+                elif how["reap"] == "communicate":
+                    objs[i].communicate()
+                elif how["reap"] == "exit":
+                    objs[i].__enter__()
+                    objs[i].__exit__(None, None, None)
+                else:
+                    objs[i].wait()
+                got = _int(objs[i]._Popen__subproc.returncode)
+            except BaseException as e:  # noqa
+                if isinstance(e, (KeyboardInterrupt, SystemExit)) or type(e).__name__ == "CaseTimeout":
+                    raise
+                got = "raised %s" % type(e).__name__
+            if got != want:
+                pre_bad.append("%s of Popen %d collected %r, expected %r" % (how["reap"], i, got, want))
+            if how.get("reuse"):
+                vk.reuse(pids[i])
+            for nm in case.get("inter", []):
+                other_call(objs[i], nm)
         for i in case.get("prewait", []):
             r0 = _res(lambda: objs[i].wait())
             want = T("Int", spec_code(ps[i]["status"])) if ps[i]["kind"] == "child" else None
@@ -390,6 +612,7 @@ def run_procs(case, env, mode):
         pre_bad.append("pre-wait of an ended process slept or took time")
     del vk.sleeps[:]
     psutil.Process.wait = rec_wait
+    psutil.Popen.wait = rec_pwait
     try:
         with Patched(vk):
             try:
@@ -402,6 +625,7 @@ def run_procs(case, env, mode):
                 exc = T("Hang") if isinstance(e, Hang) else T(type(e).__name__ if isinstance(e, (ValueError, TypeError)) else "Raised:" + type(e).__name__)
     finally:
         psutil.Process.wait = orig_wait
+        psutil.Popen.wait = orig_pwait
     gone = alive = []
     shape_ok = True
     if r is not None:
@@ -414,8 +638,8 @@ def run_procs(case, env, mode):
             shape_ok = False
     rc = []
     for i, o in enumerate(objs):
-        if hasattr(o, "returncode"):
-            v = o.returncode
+        if "returncode" in vars(o):      # set by wait_procs on the object itself (a Popen also delegates the name)
+            v = vars(o)["returncode"]
             rc.append([i, None if v is None else (T("Int", int(v)) if isinstance(v, int) else T("Value", repr(v)))])
     res = {"exc": exc, "gone": gone, "alive": alive, "rc": rc, "cbs": cbs, "sleeps": [q(s) for s in vk.sleeps],
            "ret": q(vk.clock), "waits": waits}
